@@ -144,6 +144,9 @@ def run(ctx) -> None:
     # "always including the config file's own current_version line" - format independent
     from checks.c03 import self_pattern_rule
     self_pattern_rule(ctx, "R2")
+    # ... and the set of (file, pattern) pairs: every file a configured glob finds is a configured file, whatever its name
+    from checks.c03 import canonical_keys_rule
+    canonical_keys_rule(ctx, "R2")
     # INI values are taken verbatim, like TOML strings: no %-interpolation, no inline-comment stripping
     cpk = prog.klass("config._ConfigParser")
     from checks.c07 import ini_verbatim_rule
